@@ -74,7 +74,6 @@ CFG['elide_body'] += CFG['force_assumed']
 K = 'frost-core/src/'
 CFG['strip_clauses'] = {
     K + 'batch.rs :: Item<C> :: new': ['exact'],
-    K + 'keys/dkg.rs :: compute_proof_of_knowledge': ['value'],
     K + 'keys.rs :: split': ['value'],
     K + 'lib.rs :: aggregate_custom': ['exact', 'released_signatures_verify'],
     K + 'lib.rs :: aggregate': ['as_first_cheater'],
@@ -86,8 +85,6 @@ CFG['strip_clauses'] = {
     K + 'verifying_key.rs :: VerifyingKey<C> :: verify': ['exact'],
     # transitively (they rely on a stripped clause of a callee, or on the default encoding of the signature codec hooks):
     K + 'keys.rs :: generate_with_dealer': ['value'],
-    K + 'keys/dkg.rs :: part1': ['value'],
-    K + 'keys/refresh.rs :: refresh_dkg_part1': ['value'],
     K + 'signature.rs :: Signature<C> :: serialize': ['identity', 'value', 'length'],
     K + 'signature.rs :: Signature<C> :: deserialize': ['wrong_length', 'bad_R', 'bad_z', 'value'],
 }
